@@ -66,6 +66,8 @@ func verifMkRoute(method string, kinds []int) (verifRoute, bool) {
 	if kinds == nil {
 		return r, false
 	}
+	// parameter names are interchangeable: a pattern's first parameter is ":p",
+	// ":q" only follows a ":p" (sibling parameters of different names are H03a's)
 	np, nq := 0, 0
 	for _, k := range kinds {
 		if k == 0 && len(kinds) > 1 {
@@ -75,6 +77,9 @@ func verifMkRoute(method string, kinds []int) (verifRoute, bool) {
 			np++
 		}
 		if k == 3 {
+			if np == 0 {
+				return r, false
+			}
 			nq++
 		}
 	}
@@ -205,7 +210,11 @@ func Verif_C03_router() {
 
 	env := &verifEnv{}
 	pr := NewRouter().(*patRouter)
-	custom := verifChoose("customHandlers", 2) == 1
+	// The three environment dimensions (how pattern 0 is written, how the
+	// request path is written, default/custom fallback handlers) are combined
+	// in 4 modes rather than 32: every value of each meets every table and request.
+	mode := verifChoose("mode", 4)
+	custom := mode%2 == 1
 	if custom {
 		pr.SetNotFoundHandler(verifH{-1, env})
 		pr.SetNotAllowedHandler(verifH{-2, env})
@@ -214,7 +223,7 @@ func Verif_C03_router() {
 	for i, rt := range routes {
 		dec := 0
 		if i == 0 {
-			dec = verifChoose("patdec", 4)
+			dec = mode
 		}
 		segs := make([]string, len(rt.segs))
 		for j := range segs {
@@ -251,7 +260,7 @@ func Verif_C03_router() {
 		}
 		req[j] = s
 	}
-	raw := verifRawPath(req, verifChoose("reqdec", 4))
+	raw := verifRawPath(req, (mode+1)%4)
 	w := &verifRW{hdr: http.Header{}}
 	pr.ServeHTTP(w, &http.Request{Method: method, URL: &url.URL{Path: raw}})
 
